@@ -5,9 +5,16 @@ CONSTANTS
   AsFound_NaNExitsLoop = FALSE
   AsFound_DecorativeAfterAppend = FALSE
   AsFound_NoSweepAtBigTolerance = FALSE
+  MaxRetries = 0
+  CapBoost = 3
+  SweepAlphabet <- MC_AllSweeps
+  DecoAlphabet <- MC_AllDeco
+  BigChoices <- MC_BothBig
+  LaggedRecordedAtSetup = FALSE
 INVARIANT TypeOK
 INVARIANT C02_SolvedOnlyIfConverged
 INVARIANT C02_SolvedOnlyAfterSweep
+INVARIANT C02_PeriodAllOrNothing
 INVARIANT C11_BoundedSweeps
 INVARIANT C11_NothingSolvedAtCap
 INVARIANT C11_EqualLengthsAfterFailure
